@@ -1,13 +1,59 @@
 (** C04 — Key generation is the specification's function of the seed.
-    Only property theorems here, closed by [exact] of lemmas proved in PTape.v / PBridge.v / PContainer.v.
-    PROVED so far (names say _partial where the full property needs more): unseeded generation is exactly the seeded
-    function of the 32 bytes drawn; the outcome does not depend on the output buffers; the secret vectors are the
-    specification's ExpandS of rho' (RejBoundedPoly of SHAKE256(rho' || nonce), nonces 0..l-1 and l..l+k-1, within
-    +-eta) and the matrix is ExpandA of rho (RejNTTPoly of SHAKE128(rho || j || i)); the key sizes are the standard's.
-    NOT yet a Coq theorem: the identification of t = A s1 + s2 computed in the NTT domain with the ring expression and
-    the byte-level equality with pkEncode/skEncode of the specification's (rho, K, tr, s1, s2, t0, t1); that part is
-    decided by executing model, crate and an independent KeyGen on thousands of seeds (see evidence). *)
-From DV Require Import Base MReduce MParams MPoly MPolyvec MSign MApi PSample PBridge PTape PContainer.
+    Only property theorems here, closed by [exact] of lemmas proved in PKeygen.v / PRing.v / PTape.v / PBridge.v.
+    [S_keygen P xi pk sk] (PKeygen.v) transcribes Dilithium 3.1 KeyGen / FIPS 204 ML-DSA.KeyGen_internal:
+      (rho, rho', K) = H(xi [|| k || l for ML-DSA], 128);  A^ = ExpandA(rho) (RejNTTPoly of SHAKE128(rho || j || i));
+      (s1, s2) = ExpandS(rho') (RejBoundedPoly of SHAKE256(rho' || nonce));  t in [0,q)^256 with NTT(t - s2) = A^ o NTT(s1);
+      (t1, t0) = Power2Round(t);  pk = pkEncode(rho, t1);  tr = H(pk);  sk = skEncode(rho, K, tr, s1, s2, t0),
+    NTT being evaluation at the roots 1753^(2 brv8(i)+1) (injective mod q: PRing.ntt_inj), the samplers relational because
+    their termination is not provable (bounded by the model's block budget). PROVED for the six parameter sets and EVERY
+    32-byte seed: whenever key generation returns, it returns exactly the specification's key pair with the standard sizes and
+    draws nothing; the specification defines a function of the seed; unseeded generation is that function of the 32 bytes
+    drawn; key generation never panics (no overflow / out-of-bounds). *)
+From DV Require Import Base MReduce MParams MPoly MPolyvec MSign MApi PSample PBridge PTape PContainer PRing PKeygen.
+
+Theorem C04_keygen_is_the_specification : forall (P : params) (xi pk0 sk0 tape pk sk tape' : list Z),
+  std P -> Forall is_byte xi -> zlen xi = 32 -> zlen pk0 = pPK P -> zlen sk0 = pSK P ->
+  keypair P pk0 sk0 (Some xi) tape = Ok (pk, sk, tape') ->
+  S_keygen P xi pk sk /\ zlen pk = pPK P /\ zlen sk = pSK P /\ tape' = tape.
+Proof. exact keygen_spec. Qed.
+Print Assumptions C04_keygen_is_the_specification.
+
+Theorem C04_specification_is_a_function_of_the_seed : forall (P : params) (xi pk sk pk' sk' : list Z),
+  S_keygen P xi pk sk -> S_keygen P xi pk' sk' -> pk = pk' /\ sk = sk'.
+Proof. exact S_keygen_functional. Qed.
+Print Assumptions C04_specification_is_a_function_of_the_seed.
+
+Theorem C04_unseeded_is_the_specification_of_the_drawn_seed : forall (P : params) (pk0 sk0 tape pk sk tape' : list Z),
+  std P -> Forall is_byte (firstn 32 tape) -> zlen pk0 = pPK P -> zlen sk0 = pSK P ->
+  keypair P pk0 sk0 None tape = Ok (pk, sk, tape') ->
+  S_keygen P (firstn 32 tape) pk sk /\ zlen pk = pPK P /\ zlen sk = pSK P /\ tape' = skipn 32 tape.
+Proof. exact keygen_spec_unseeded. Qed.
+Print Assumptions C04_unseeded_is_the_specification_of_the_drawn_seed.
+
+(** consequences: same rho in both keys, tr = H(pk), and t = A s1 + s2 in Z_q[X]/(X^256+1) with s within +-eta *)
+Theorem C04_same_rho_and_tr : forall (P : params) (xi pk sk : list Z), S_keygen P xi pk sk ->
+  (firstn 32 pk = firstn 32 (S_seedbuf P xi) /\ firstn 32 sk = firstn 32 (S_seedbuf P xi)) /\
+  firstn (Z.to_nat (pTR P)) (skipn 64 sk) = SKeccak.S_shake 136 pk (Z.to_nat (pTR P)).
+Proof. intros P xi pk sk H; split; [exact (keygen_same_rho P xi pk sk H) | exact (keygen_tr_is_hash_of_pk P xi pk sk H)]. Qed.
+Print Assumptions C04_same_rho_and_tr.
+
+Theorem C04_ring_relation : forall (P : params) (xi pk sk : list Z), std P -> S_keygen P xi pk sk ->
+  exists (rho key : list Z) (A Ac : list (list (list Z))) (s1 s2 t : list (list Z)),
+    rho = firstn 32 (S_seedbuf P xi) /\ S_expandA P rho A /\ Forall2 (Forall2 ntt_of) Ac A /\
+    Forall (eta_poly (pETA P)) s1 /\ Forall (eta_poly (pETA P)) s2 /\ Forall (prng 0 Q) t /\
+    pk = PKeyCodec.S_pkEncode rho (S_t1 t) /\
+    sk = PKeyCodec.S_skEncode (pETA P) rho key (SKeccak.S_shake 136 pk (Z.to_nat (pTR P))) s1 s2 (S_t0 t) /\
+    forall (r : nat) (Arow : list (list Z)) (e tr : list Z),
+      nth_error Ac r = Some Arow -> nth_error s2 r = Some e -> nth_error t r = Some tr ->
+      forall j : nat, (j < 256)%nat -> PNtt.eqm (nth j tr 0) (nth j (ring_dot Arow s1) 0 + nth j e 0).
+Proof. exact keygen_ring_relation. Qed.
+Print Assumptions C04_ring_relation.
+
+Theorem C04_keygen_never_panics : forall (P : params) (xi pk0 sk0 tape : list Z),
+  std P -> Forall is_byte xi -> zlen xi = 32 -> zlen pk0 = pPK P -> zlen sk0 = pSK P ->
+  keypair P pk0 sk0 (Some xi) tape <> Panic.
+Proof. exact keypair_no_panic. Qed.
+Print Assumptions C04_keygen_never_panics.
 
 Theorem C04_unseeded_is_seeded_of_drawn_bytes : forall (P : params) (pk sk tape : list Z),
   keypair P pk sk None tape =
@@ -22,7 +68,7 @@ Theorem C04_function_of_seed_only :
 Proof. exact keypair_buffers_irrelevant_std. Qed.
 Print Assumptions C04_function_of_seed_only.
 
-Theorem C04_secret_vectors_are_ExpandS_partial :
+Theorem C04_secret_vectors_are_ExpandS :
   forall (P : params) (seed : list Z) (nonce : Z) (v : list (list Z)),
   pETA P = 2 \/ pETA P = 4 -> 0 <= pL P -> 0 <= nonce -> nonce + pL P <= 65535 ->
   64 <= zlen seed -> Forall is_byte (firstn 64 seed) ->
@@ -32,9 +78,9 @@ Theorem C04_secret_vectors_are_ExpandS_partial :
     rej_stream_poly (S_rej_bounded_stream (pETA P)) (SKeccak.S_shake 136 (xof_in 64 seed (nonce + Z.of_nat i))) 136 1 (1 + SAMPLER_FUEL) p /\
     length p = 256%nat /\ Forall (fun x => - pETA P <= x <= pETA P) p.
 Proof. exact l_uniform_eta_ok. Qed.
-Print Assumptions C04_secret_vectors_are_ExpandS_partial.
+Print Assumptions C04_secret_vectors_are_ExpandS.
 
-Theorem C04_matrix_is_ExpandA_partial : forall (P : params) (rho : list Z) (mat : list (list (list Z))),
+Theorem C04_matrix_is_ExpandA : forall (P : params) (rho : list Z) (mat : list (list (list Z))),
   0 <= pK P <= 256 -> 0 <= pL P <= 256 -> 32 <= zlen rho -> Forall is_byte (firstn 32 rho) ->
   matrix_expand P (zmat (pK P) (pL P)) rho = Ok mat ->
   length mat = Z.to_nat (pK P) /\
@@ -44,7 +90,7 @@ Theorem C04_matrix_is_ExpandA_partial : forall (P : params) (rho : list Z) (mat 
       rej_stream_poly S_rej_ntt_stream (SKeccak.S_shake 168 (firstn 32 rho ++ [Z.of_nat j; Z.of_nat i])) 168 5 (5 + SAMPLER_FUEL) p /\
       length p = 256%nat /\ Forall (fun x => 0 <= x < Q) p.
 Proof. exact expandA_ok. Qed.
-Print Assumptions C04_matrix_is_ExpandA_partial.
+Print Assumptions C04_matrix_is_ExpandA.
 
 Theorem C04_standard_sizes :
   (pSK P_lvl2, pPK P_lvl2, pSIG P_lvl2) = (2528, 1312, 2420) /\
